@@ -1,6 +1,10 @@
 package main
 
-import "go/types"
+import (
+	"go/types"
+
+	"golang.org/x/tools/go/ssa"
+)
 
 // fieldSpecName names a function-typed struct field as "Type.field" (the key of `field` clauses).
 func fieldSpecName(t types.Type, idx int) string {
@@ -12,4 +16,26 @@ func fieldSpecName(t types.Type, idx int) string {
 		return ""
 	}
 	return typeName(t) + "." + stt.Field(idx).Name()
+}
+
+// strConstID: the opaque identity of a string constant regardless of the string mode (for fnname()).
+func (g *Gen) strConstID(s string) Val { return Val{T: strID(s), Kind: "int"} }
+
+// staticFnSpec derives the behaviour-spec key of a function value from the SSA that produced it:
+// a captured function-typed variable ("Outer.name") or a function-typed struct field ("Type.field").
+func staticFnSpec(v ssa.Value) string {
+	switch x := v.(type) {
+	case *ssa.UnOp:
+		switch a := x.X.(type) {
+		case *ssa.FreeVar:
+			if a.Parent() != nil && a.Parent().Parent() != nil {
+				return a.Parent().Parent().Name() + "." + a.Name()
+			}
+		case *ssa.FieldAddr:
+			return fieldSpecName(a.X.Type(), a.Field)
+		}
+	case *ssa.Field:
+		return fieldSpecName(x.X.Type(), x.Field)
+	}
+	return ""
 }
